@@ -1,6 +1,7 @@
 package main
 
 import (
+	"fmt"
 	"go/types"
 	"strings"
 )
@@ -213,6 +214,71 @@ func initTimeStubs() {
 		return ret(st, UF("Duration_String", StringSort, args[0].(*Term)))
 	}
 	stubTable["time.Sleep"] = stubZero
+	// tickers and timers: the channel is driven by the environment (see conc.go); d <= 0 panics for NewTicker
+	mkTimer := func(kind string) StubFn {
+		return func(e *Exec, st *State, fn *Func, args []Value, site string) []Outcome {
+			d := args[0].(*Term)
+			var outs []Outcome
+			if kind == "ticker" {
+				bad := BVCmp("bvsle", d, BVConst(0, 64))
+				if bad.IsTrue() {
+					return e.panicOut(st, e.stubPanicValue(st, "non-positive interval for NewTicker"), "time.NewTicker: non-positive interval", site)
+				}
+				if !bad.IsFalse() && e.feasible(st, bad) {
+					p := st.Clone()
+					p.Assume(bad)
+					outs = append(outs, e.panicOut(p, e.stubPanicValue(p, "non-positive interval for NewTicker"), "time.NewTicker: non-positive interval", site)...)
+				}
+				st.Assume(Not(bad))
+			}
+			rt := fn.Fn.Signature.Results().At(0).Type()
+			chid := e.newObj(st, &Opaque{"chan"})
+			if e.conc != nil {
+				e.conc.chans[chid] = &chanInfo{id: chid, kind: kind, aux: d}
+				ev := e.conc.emit(st, "arm", fmt.Sprintf("ch:%d", chid), site)
+				ev.Val = d
+			}
+			e.ghostLog(st, "time."+kind, &Struct{[]Value{d}})
+			if pt, ok := rt.(*types.Pointer); ok {
+				zv := e.zero(pt.Elem()).(*Struct)
+				f := append([]Value(nil), zv.F...)
+				stt := pt.Elem().Underlying().(*types.Struct)
+				for i := 0; i < stt.NumFields(); i++ {
+					if stt.Field(i).Name() == "C" {
+						f[i] = ChanRef{chid}
+					}
+				}
+				return append(outs, ret(st, Ptr{Obj: e.newObj(st, &Struct{f})})...)
+			}
+			return append(outs, ret(st, ChanRef{chid})...) // time.After
+		}
+	}
+	stubTable["time.NewTicker"] = mkTimer("ticker")
+	stubTable["time.NewTimer"] = mkTimer("timer")
+	stubTable["time.After"] = mkTimer("timer")
+	stopFn := func(e *Exec, st *State, fn *Func, args []Value, site string) []Outcome {
+		p := args[0].(Ptr)
+		if p.IsNil() {
+			return e.panicOut(st, e.runtimeError("invalid memory address or nil pointer dereference"), "Stop on nil ticker/timer", site)
+		}
+		tv := e.load(st, p).(*Struct)
+		var ch ChanRef
+		for _, f := range tv.F {
+			if c, ok := f.(ChanRef); ok {
+				ch = c
+			}
+		}
+		if e.conc != nil && ch.Obj != 0 {
+			e.conc.emit(st, "stoptimer", fmt.Sprintf("ch:%d", ch.Obj), site)
+		}
+		e.ghostLog(st, "time.stop", &Struct{[]Value{BVConst(uint64(ch.Obj), 64)}})
+		if fn.Fn.Signature.Results().Len() == 1 {
+			return ret(st, e.fresh("stopped", BoolSort))
+		}
+		return ret(st)
+	}
+	stubTable["(*time.Ticker).Stop"] = stopFn
+	stubTable["(*time.Timer).Stop"] = stopFn
 }
 
 // ---------------- strings / strconv ----------------
